@@ -422,6 +422,71 @@ func c02Segmented(c *Ctx) {
 	}
 }
 
+// c02SplitAndEmptyLines: files made of empty lines, short lines and lines of exactly 1x / 2x MaxLineLength (8) and one
+// byte more, in every order (<=4 lines), through a complete dcat and a complete dgrep --invert session (pattern that
+// matches nothing: every line is selected): every line arrives once and in order, i.e. the output is the file with a
+// newline after every 8th byte of an over-long line.  (Empty lines next to split lines were not in C02's files.)
+func c02SplitAndEmptyLines(c *Ctx) {
+	toks := []string{"", "ab", "xxxxxxxx", "yyyyyyyyyyyyyyyy", "zzzzzzzzz"}
+	var files [][]string
+	var rec func(cur []string)
+	rec = func(cur []string) {
+		if len(cur) > 0 {
+			files = append(files, append([]string{}, cur...))
+		}
+		if len(cur) == 4 {
+			return
+		}
+		for _, t := range toks {
+			rec(append(cur, t))
+		}
+	}
+	rec(nil)
+	n := 0
+	for _, lines := range files {
+		long := false
+		for _, l := range lines {
+			long = long || len(l) >= 8
+		}
+		if !long {
+			continue
+		}
+		for _, kind := range []string{"cat", "grep"} {
+			n++
+			if n%c.NShards != c.Shard {
+				continue
+			}
+			if c.Expired() {
+				return
+			}
+			content := strings.Join(lines, "\n") + "\n"
+			path := WriteScratch(fmt.Sprintf("c02/split-%d-%d.log", c.Shard, n), content)
+			want := string(c01Split([]byte(content), 8))
+			var got ClientResult
+			res := vrt.Run(vrt.Config{MaxSteps: 5000000, Horizon: 10 * time.Minute}, func() {
+				args := DefaultArgs()
+				args.Plain = true
+				args.What = path
+				args.LogLevel = "error"
+				if kind == "grep" {
+					args.RegexStr = "never matches Q"
+					args.RegexInvert = true
+				}
+				got = RunClientBody(ClientOpts{Kind: kind, Args: args, Mutate: func() { config.Server.MaxLineLength = 8 }})
+			})
+			os.Remove(path)
+			c.Count(fmt.Sprintf("split|%s|%q", kind, lines))
+			if n%64 == 0 {
+				vrt.Forget()
+			}
+			if res.Fail != nil || got.Status != 0 || got.Stdout != want {
+				c.Violation("lines-lost-next-to-a-split-line", fmt.Sprintf("d%s (MaxLineLength 8) over the lines %q: output %q (status %d, %v), want every line once and in order: %q", kind, lines, got.Stdout, got.Status, res.Fail, want), map[string]interface{}{"kind": kind, "lines": lines})
+				return
+			}
+		}
+	}
+}
+
 func c02ParamSets(tier string) (ps []c02Params, d int) {
 	if tier == "quick" {
 		return []c02Params{
@@ -503,7 +568,7 @@ func init() {
 		Rule: "stateless exploration of all schedules within a deviation bound (quick 1, thorough 2; deviations = preemption, non-first ready select case, demotion of a goroutine) of one complete dcat/dgrep session: " +
 			"the real client main body, serverless connector, server handler, read commands, readers and client handler; sessions (with one server, and with 2-3 servers in labelled output) of 1-3 files (and one of 5 files: more than twice the limit queue) with 0-2 lines (plus 100/101 lines around the queue capacity and, on the canonical schedule, files of 700-3000 lines with a stalling consumer), one command per file or one glob (also spelled with '//', '/./', 'x/../'), " +
 			"cat limit 1-2, grep with max/after, globs that also match a directory, a dangling link and a file the permission rules deny, consumer eager, stalled 50 ms..6 s before the k-th write, or uniformly slow (10 ms per read over 900-line files, plain / gzip / zstd, last line terminated or not: the reader reaches the end of the file seconds after it started, behind its full queues); slow disks (1.1-5.2 s per read(2)) also on compressed files with an unterminated last line; oracle: per file exactly its selected lines once and in order, exit status 0, termination before the horizon; " +
-			"plus a 4-file session whose command stream is delivered in segments of 1..32768 bytes through a re-used transport buffer (as an SSH channel does); distinct = distinct (scenario, stdout+status) outcomes",
+			"plus (canonical schedule) all files of <=4 lines over {empty, short, exactly 1x and 2x MaxLineLength, one byte more} through dcat and dgrep --invert with MaxLineLength 8: every line once and in order; plus a 4-file session whose command stream is delivered in segments of 1..32768 bytes through a re-used transport buffer (as an SSH channel does); distinct = distinct (scenario, stdout+status) outcomes",
 		Assumptions: []string{
 			"code between two synchronisation operations is atomic (data-race freedom; checked by the free-running -race pass)",
 			"virtual time advances only when no goroutine is runnable; slowness is modelled by explicit consumer stalls and by demotion",
@@ -520,6 +585,7 @@ func init() {
 			if c.Shard == 0 {
 				c02Segmented(c)
 			}
+			c02SplitAndEmptyLines(c)
 			ps, d := c02ParamSets(c.Tier)
 			for _, p := range ps {
 				if c.Expired() {
